@@ -70,7 +70,7 @@ def main():
             fails_with |= rc != 0
         reset()
         sh(f'git apply {dst}/patch.diff')
-        suite = 'cargo nextest run --workspace --no-fail-fast --offline --test-threads 8'
+        suite = 'cargo nextest run --workspace --no-fail-fast --tool-config-file pb:/w/lib/nextest.toml --profile pb --offline --test-threads 8'
         rc, out = sh(suite, timeout=5400)
         if rc != 0:   # known flaky solver-outcome tests: one retry
             rc2, out2 = sh(suite, timeout=5400)
